@@ -88,6 +88,7 @@ type Cache struct {
 	lazyUpdateSF singleflight.Group
 	closeOnce    sync.Once
 	closeNotify  chan struct{}
+	dumpLoopDone chan struct{} // closed when the dump loop has exited. nil if there is no dump loop.
 	updatedKey   atomic.Uint64
 
 	queryTotal   prometheus.Counter
@@ -244,12 +245,17 @@ func (c *Cache) doLazyUpdate(msgKey string, qCtx *query_context.Context, next se
 }
 
 func (c *Cache) Close() error {
-	if err := c.dumpCache(); err != nil {
-		c.logger.Error("failed to dump cache", zap.Error(err))
-	}
+	// Stop the dump loop and wait for a running periodic dump before
+	// writing the final dump. Two dumps must not write the file at once.
 	c.closeOnce.Do(func() {
 		close(c.closeNotify)
 	})
+	if c.dumpLoopDone != nil {
+		<-c.dumpLoopDone
+	}
+	if err := c.dumpCache(); err != nil {
+		c.logger.Error("failed to dump cache", zap.Error(err))
+	}
 	return c.backend.Close()
 }
 
@@ -275,12 +281,20 @@ func (c *Cache) startDumpLoop() {
 	if len(c.args.DumpFile) == 0 {
 		return
 	}
+	c.dumpLoopDone = make(chan struct{})
 	go func() {
+		defer close(c.dumpLoopDone)
 		ticker := time.NewTicker(time.Duration(c.args.DumpInterval) * time.Second)
 		defer ticker.Stop()
 		for {
 			select {
 			case <-ticker.C:
+				select {
+				case <-c.closeNotify: // Closed. Don't start a new dump.
+					return
+				default:
+				}
+
 				// Check if we have enough changes to dump.
 				keyUpdated := c.updatedKey.Swap(0)
 				if keyUpdated < minimumChangesToDump { // Nop.
